@@ -24,6 +24,12 @@ Theorem C13_flags : forall p zod fl fl' w w',
   run_files fl zod w p = run_files fl zod w' p.
 Proof. exact flags_thm. Qed.
 
+(* The files a run writes do not depend on what the output directory held before (stale, longer,
+   truncated or foreign copies of the same names): every generated name reads back the same. *)
+Theorem C13_prior_state : forall (prior prior' : dir (list decl)) o k, In k (map fst (out_files o)) ->
+  read (write_all prior (out_files o)) k = read (write_all prior' (out_files o)) k.
+Proof. intros prior prior' o k. apply prior_state. Qed.
+
 (* Moving items between files, reordering them, splitting and merging files (any project with the
    same items) changes at most the order of declarations - unless a type name is defined twice or an
    event name is emitted with two different payload types. *)
@@ -115,6 +121,7 @@ Proof. split; cbn.
 Print Assumptions C13_order_independent.
 Print Assumptions C13_viz_independent.
 Print Assumptions C13_flags.
+Print Assumptions C13_prior_state.
 Print Assumptions C13_move.
 Print Assumptions C13_transformations.
 Print Assumptions C13_oracle_exact.
